@@ -378,4 +378,61 @@ theorem restart_adoptX {s : St} {db : DB} {g : GDir} {n : Nat} {gm vis : GDir} (
   cases hmd0
   exact ⟨d, md, maxFid, W', hd, hmd, hmm0, by rw [hmk0]; simp, rfl, hopen, hWd, hWm, hinv', hM, hmax2, hmax1⟩
 
+/-- **what a restart** (`Close`, then `Open` of `dir`; `s` the state before, `s'` the state after)
+    **does to the counters** of the new handle `db'`, whose ghost directory is `g'`:
+
+    * nothing adoptable (`NoMarker`: no merge directory, or one without a marker — e.g. after a `Merge`
+      that reported the id conflict): `total` and `reclaim` are EXACTLY the replay's;
+    * a finished merge is adopted (the merge directory `md` holds a marker; its files are the ghost
+      files `gm`; `g' = gm ++` the files from the marker on): `Open` reads the hint file and then
+      scans from file `maxFid` = the largest file id the hint file mentions (0 if it is empty), so the
+      records of merged file `maxFid` are counted a second time — `total` and `reclaim` BOTH exceed
+      the replay's by `S = sizeSum (logOf (hi gm maxFid))`.  Their difference is exact in both cases
+      (`Inv.counters`). -/
+def RestartCounters (dir : String) (s s' : St) : Prop :=
+  ∃ db' g', s'.db = some db' ∧ Inv s' db' g' ∧
+    ((NoMarker s.world dir ∧
+        db'.total = (replayLog (logOf g')).total ∧ db'.reclaim = (replayLog (logOf g')).reclaim) ∨
+     (∃ md gm maxFid ghi, s.world.get (mergeDirName dir) = some md ∧ md.marker ≠ none ∧ Matches md.data gm ∧
+        Merged gm ∧ g' = gm ++ ghi ∧
+        (maxFid = 0 ∨ ∃ x ∈ logOf gm, x.2.fid = maxFid) ∧ (∀ x ∈ logOf gm, x.2.fid ≤ maxFid) ∧
+        db'.total = (replayLog (logOf g')).total + sizeSum (logOf (hi gm maxFid)) ∧
+        db'.reclaim = (replayLog (logOf g')).reclaim + sizeSum (logOf (hi gm maxFid))))
+
+theorem restartQ_counters {dir : String} {s : St} {m : BSpec} {dead : Bool} (hq : HInvQ dir s m dead)
+    (cfg' : Cfg) (hcfg : cfg'.Valid)
+    (hsz : ∀ md, s.world.get (mergeDirName dir) = some md → md.marker ≠ none →
+      ∀ x ∈ md.data, x.2.bytes.size < 2 ^ 32) :
+    RestartCounters dir s (openDB (close s).1 dir cfg').1 := by
+  obtain ⟨db, hs, _⟩ := hq.2
+  obtain ⟨db0, g, hs0, hd0, hi0, _, hms0, _⟩ := hq.1
+  rw [setB_db hs] at hs0
+  cases hs0
+  have hdir : db.dir = dir := hd0
+  subst hdir
+  have hcl : close (setB none s) = close s := close_setB none s
+  rcases hms0 with hnm | ⟨n, gm, vis, hmo⟩
+  · obtain ⟨d, hdd, _, hopen⟩ := restart_scanX cfg' (setB_db hs none) hi0 hnm.plan hcfg
+    rw [hcl] at hopen
+    have hopen' : openDB (close s).1 db.dir cfg'
+        = (⟨s.world.set db.dir ⟨syncAll d.data, d.hint, d.marker, true⟩, some (scanDB cfg' db.dir db.activeId g)⟩, .ok) := hopen
+    rw [hopen']
+    obtain ⟨d', hd', _, hm⟩ := hi0.dir
+    have hdd' : s.world.get db.dir = some d := hdd
+    have hd2 : s.world.get db.dir = some d' := hd'
+    rw [hdd'] at hd2
+    cases hd2
+    have hinv' := Inv_scanDB (s.world.set db.dir ⟨syncAll d.data, d.hint, d.marker, true⟩) db.dir cfg'
+      ⟨syncAll d.data, d.hint, d.marker, true⟩ g db.activeId (MergeP.get_set_self _ _ _) rfl (Matches_syncAll hm)
+      hi0.asc hi0.recs hi0.active ⟨_, some (scanDB cfg' db.dir db.activeId g)⟩ rfl
+    exact ⟨_, g, rfl, hinv', Or.inl ⟨hnm, rfl, rfl⟩⟩
+  · have hF := HintFits_of_sizes hmo hsz
+    obtain ⟨d, md, maxFid, W', hdd, hmdd, hmm, hmk, _, hopen, _, _, hinv', hM, hmax2, hmax1⟩ :=
+      restart_adoptX cfg' (setB_db hs none) hi0 hmo hF hcfg
+    rw [hcl] at hopen
+    have hopen' : openDB (close s).1 db.dir cfg'
+        = (⟨W', some (hintDB cfg' db.dir db.activeId (gm ++ hi g n) (sizeSum (logOf (hi gm maxFid))))⟩, .ok) := hopen
+    rw [hopen']
+    exact ⟨_, gm ++ hi g n, rfl, hinv', Or.inr ⟨md, gm, maxFid, hi g n, hmdd, hmk, hmm, hM, rfl, hmax2, hmax1, rfl, rfl⟩⟩
+
 end XixiKV.C17H
